@@ -51,6 +51,7 @@ CInit(cf, active) ==
       shifted |-> FALSE,     \* the file has re-based X, Y or Z with G92 (discriminator D11)
       sc03   |-> TRUE,       \* C03 quantifier (no G28 / G92 XYZ / M206 in an open episode)
       scE    |-> TRUE,       \* C04/C05 quantifier (absolute E, matched unmixed cycles)
+      eabsOK |-> TRUE,       \* the extruder has been in absolute mode throughout
       gr     |-> 0,          \* ghost retraction cycle: 0 none, n > 0 E-only amount, -1 firmware
       gk     |-> "n",        \* retraction kind used so far: n(one) e(-only) f(irmware)
       maxret |-> 0,          \* deepest retraction the file has requested so far
@@ -199,6 +200,7 @@ GStepActive(cs, ev, q, tol) ==
                                           \/ (c.code = "G92" /\ HasXYZ(c))))
         cyc   == CycleStep(cs, c, g0, g1, isMove)
         scE1  == cs.scE /\ cyc.ok /\ ~anyBig
+        eabsOK1 == cs.eabsOK /\ g1.eabs /\ c.code \notin {"M82", "M83"} /\ ~anyBig
         maxret1 == Max2(cs.maxret, Ret(g1))
         g10sent == {k \in 1..nout : outs[k].code = "G10"
                                       /\ ~(Seen(outs[k], "P") \/ Seen(outs[k], "L"))}
@@ -293,6 +295,10 @@ GStepActive(cs, ev, q, tol) ==
                                            ~TxtIn(outs[k].txt, cf.enter)
                     ELSE \A k \in 1..nout :
                            outs[k].txt = c.txt \/ ~TxtIn(outs[k].txt, cf.enter)>>,
+          \* an entering move that does not itself retract yields the enter script and nothing else
+          <<"C06", "C06.enter_exact",
+             (mon /\ eabsOK1 /\ opening /\ g1.fil >= g0.fil /\ ev.res # "exc")
+                => nout = Len(cf.enter)>>,
           <<"C06", "C06.flush",
              (mon /\ ev.res # "exc") =>
                 IF closing THEN FlushOK(cs.led, cf.exit, outs)
@@ -307,7 +313,8 @@ GStepActive(cs, ev, q, tol) ==
         >>
     IN  [cs EXCEPT
            !.n = n, !.gh = g1, !.ph = p1, !.ep = ep1, !.clean = clean1,
-           !.posOK = posOK1, !.sc03 = sc03_1, !.scE = scE1, !.shifted = shifted1,
+           !.posOK = posOK1, !.sc03 = sc03_1, !.scE = scE1, !.eabsOK = eabsOK1,
+           !.shifted = shifted1,
            !.gr = cyc.gr, !.gk = cyc.gk, !.ga = cyc.ga, !.maxret = maxret1, !.g10p = g10p1,
            !.led = led1,
            !.cnt = [cs.cnt EXCEPT
@@ -424,7 +431,7 @@ NotesOK(notes, before, after) ==
 \* the tracking state of a new print: nothing is known, nothing is owed
 ResetTracking(cs) ==
     [cs EXCEPT !.ph = P0, !.gh = P0, !.en = TRUE, !.ep = FALSE, !.clean = TRUE,
-               !.posOK = TRUE, !.shifted = FALSE, !.sc03 = TRUE, !.scE = TRUE,
+               !.posOK = TRUE, !.shifted = FALSE, !.sc03 = TRUE, !.scE = TRUE, !.eabsOK = TRUE,
                !.gr = 0, !.gk = "n", !.ga = 0, !.maxret = 0, !.g10p = "", !.led = <<>>]
 
 EndEvents == {"PrintDone", "PrintFailed", "PrintCancelling", "PrintCancelled", "Error"}
